@@ -440,3 +440,26 @@ Definition exact_inv : inv_oracle := fun _ n d =>
        then Some b else None.
 Definition exact_rank_deficient : rank_oracle := fun k n d =>
   match exact_inv k n d with None => true | Some _ => false end.
+
+(* ---------------------------------------------------------------- the negative-powers switch as state
+   MathArray.enable_negative_powers(value):  flag := value; body; flag := DEFAULT  (the default, not the previous value).
+   Obs stands for any evaluation that reads the flag (a matrix power); the first component of run is what those reads saw. *)
+Definition default_negpow : bool := true.
+Inductive prog := Obs | Seq (p q : prog) | With (value : bool) (body : prog).
+Fixpoint run (flag : bool) (p : prog) : list bool * bool :=
+  match p with
+  | Obs => ([flag], flag)
+  | Seq p q => let (o1, f1) := run flag p in let (o2, f2) := run f1 q in (o1 ++ o2, f2)
+  | With v body => (fst (run v body), default_negpow)
+  end.
+(* the alternative teardown: restore the previous value *)
+Fixpoint run_prev (flag : bool) (p : prog) : list bool * bool :=
+  match p with
+  | Obs => ([flag], flag)
+  | Seq p q => let (o1, f1) := run_prev flag p in let (o2, f2) := run_prev f1 q in (o1 ++ o2, f2)
+  | With v body => (fst (run_prev v body), flag)
+  end.
+Fixpoint no_with (p : prog) : bool :=
+  match p with Obs => true | Seq p q => no_with p && no_with q | With _ _ => false end.
+Fixpoint nesting_free (p : prog) : bool :=
+  match p with Obs => true | Seq p q => nesting_free p && nesting_free q | With _ body => no_with body end.
